@@ -50,8 +50,11 @@ def _frames(repo, n=4):
     t = md.load(os.path.join(repo, "tests/data/2EQQ.pdb"))[:n]
     # a hexagonal prism whose height changes from frame to frame while a and b stay the same, and which is short
     # enough along c that some pairs are wrapped: a frame processed with another frame's cell gives other numbers
-    t.unitcell_lengths = np.column_stack([np.full(n, 6.0), np.full(n, 6.0), 2.6 + 0.35 * (np.arange(n) % 5)])
+    t.unitcell_lengths = np.column_stack([np.full(n, 2.9), np.full(n, 2.9), 2.6 + 0.35 * (np.arange(n) % 5)])   # a, b short too: pairs wrap in the ab-plane
     t.unitcell_angles = np.tile(np.array([90.0, 90.0, 120.0]), (n, 1))
+    # ... and whose SHAPE changes too: even frames are rectangular prisms, odd frames hexagonal, so a decision taken
+    # once per call ("every cell is rectangular", read off the first or the last frame) is wrong for some frame order
+    t.unitcell_angles[0::2] = 90.0
     return t
 
 
